@@ -20,15 +20,16 @@ def TimeOk (q : EvQ) : Prop := ∀ e ∈ q.pending, q.now ≤ e.d
 @[reducible] def Same (w w' : World) : Prop :=
   w'.res = w.res ∧ w'.pools = w.pools ∧ w'.bufs = w.bufs ∧ w'.oqs = w.oqs ∧ w'.pqs = w.pqs ∧
   w'.now = w.now ∧ (TimeOk w.ev → TimeOk w'.ev) ∧ w'.procs.size = w.procs.size ∧
-  (∀ p, (w'.proc p).held = (w.proc p).held) ∧ ∀ p, (w'.proc p).blocked = (w.proc p).blocked
+  (∀ p, (w'.proc p).held = (w.proc p).held) ∧ (∀ p, (w'.proc p).blocked = (w.proc p).blocked) ∧
+  ∀ p, (w'.proc p).prio = (w.proc p).prio
 
-theorem Same.refl (w : World) : Same w w := ⟨rfl, rfl, rfl, rfl, rfl, rfl, id, rfl, fun _ => rfl, fun _ => rfl⟩
+theorem Same.refl (w : World) : Same w w := ⟨rfl, rfl, rfl, rfl, rfl, rfl, id, rfl, fun _ => rfl, fun _ => rfl, fun _ => rfl⟩
 
 theorem Same.trans {a b c : World} (h1 : Same a b) (h2 : Same b c) : Same a c := by
-  obtain ⟨r1, p1, b1, o1, k1, n1, t1, s1, e1, f1⟩ := h1
-  obtain ⟨r2, p2, b2, o2, k2, n2, t2, s2, e2, f2⟩ := h2
+  obtain ⟨r1, p1, b1, o1, k1, n1, t1, s1, e1, f1, g1⟩ := h1
+  obtain ⟨r2, p2, b2, o2, k2, n2, t2, s2, e2, f2, g2⟩ := h2
   exact ⟨r2.trans r1, p2.trans p1, b2.trans b1, o2.trans o1, k2.trans k1, n2.trans n1, fun h => t2 (t1 h),
-    s2.trans s1, fun p => (e2 p).trans (e1 p), fun p => (f2 p).trans (f1 p)⟩
+    s2.trans s1, fun p => (e2 p).trans (e1 p), fun p => (f2 p).trans (f1 p), fun p => (g2 p).trans (g1 p)⟩
 
 /-- a fold of `Same` steps is a `Same` step -/
 theorem foldl_same {α : Type} (f : World → α → World) (h : ∀ w a, Same w (f w a)) (l : List α) (w : World) :
@@ -91,10 +92,18 @@ theorem proc_modProc (w : World) (p q : Pid) (f : Proc → Proc) :
   · rename_i h; rw [hf, h.1]
   · rfl
 
-/-- a process update that leaves `held` and `blocked` alone is a `Same` step -/
+@[simp] theorem modProc_prio (w : World) (p q : Pid) (f : Proc → Proc) (hf : ∀ x, (f x).prio = x.prio) :
+    ((w.modProc p f).proc q).prio = (w.proc q).prio := by
+  rw [proc_modProc]
+  split
+  · rename_i h; rw [hf, h.1]
+  · rfl
+
+/-- a process update that leaves `held`, `blocked` and `prio` alone is a `Same` step -/
 theorem modProc_same (w : World) (p : Pid) (f : Proc → Proc) (hf : ∀ x, (f x).held = x.held)
-    (hb : ∀ x, (f x).blocked = x.blocked) : Same w (w.modProc p f) :=
-  ⟨rfl, rfl, rfl, rfl, rfl, rfl, id, by simp, fun q => modProc_held w p q f hf, fun q => modProc_blocked w p q f hb⟩
+    (hb : ∀ x, (f x).blocked = x.blocked) (hp : ∀ x, (f x).prio = x.prio) : Same w (w.modProc p f) :=
+  ⟨rfl, rfl, rfl, rfl, rfl, rfl, id, by simp, fun q => modProc_held w p q f hf, fun q => modProc_blocked w p q f hb,
+    fun q => modProc_prio w p q f hp⟩
 
 /-! ### faults, log -/
 
@@ -137,7 +146,7 @@ theorem timeOk_schedule {q q' : EvQ} {a s o : Nat} {t p : Int} {h : Nat} (hq : T
   | error f => exact fail_same _ _
   | ok r =>
     obtain ⟨ev', h⟩ := r
-    refine ⟨rfl, rfl, rfl, rfl, rfl, ?_, ?_, rfl, fun _ => rfl, fun _ => rfl⟩
+    refine ⟨rfl, rfl, rfl, rfl, rfl, ?_, ?_, rfl, fun _ => rfl, fun _ => rfl, fun _ => rfl⟩
     · simp only [World.now]
       unfold schedule at hs; split at hs
       · simp at hs
@@ -174,7 +183,7 @@ theorem timeOk_cancel {q : EvQ} (hq : TimeOk q) (h : Nat) : TimeOk (cancel q h).
       refine Same.trans ?_ (wakeEventWaiters_same _ _ _)
       have := fun hq => timeOk_cancel (q := w.ev) hq h
       rw [hc] at this
-      refine ⟨rfl, rfl, rfl, rfl, rfl, ?_, fun hq => (this hq).1, rfl, fun _ => rfl, fun _ => rfl⟩
+      refine ⟨rfl, rfl, rfl, rfl, rfl, ?_, fun hq => (this hq).1, rfl, fun _ => rfl, fun _ => rfl, fun _ => rfl⟩
       simp only [World.now]
       have h2 : (cancel w.ev h).1.now = w.ev.now := by unfold cancel; split <;> rfl
       rw [hc] at h2; exact h2
@@ -189,7 +198,7 @@ theorem timeOk_cancel {q : EvQ} (hq : TimeOk q) (h : Nat) : TimeOk (cancel q h).
 /-! ### guards -/
 
 @[simp] theorem setGuardQ_same (w : World) (g : Nat) (q : HH) : Same w (setGuardQ w g q) :=
-  ⟨rfl, rfl, rfl, rfl, rfl, rfl, id, rfl, fun _ => rfl, fun _ => rfl⟩
+  ⟨rfl, rfl, rfl, rfl, rfl, rfl, id, rfl, fun _ => rfl, fun _ => rfl, fun _ => rfl⟩
 
 @[simp] theorem guardRemove_same (w : World) (g : Nat) (p : Pid) : Same w (guardRemove w g p).1 := by
   unfold guardRemove
@@ -235,13 +244,13 @@ theorem timeOk_cancel {q : EvQ} (hq : TimeOk q) (h : Nat) : TimeOk (cancel q h).
 /-! ### await lists, timers -/
 
 @[simp] theorem addAwait_same (w : World) (p : Pid) (a : Await) : Same w (addAwait w p a) :=
-  modProc_same _ _ _ (fun _ => rfl) (fun _ => rfl)
+  modProc_same _ _ _ (fun _ => rfl) (fun _ => rfl) (fun _ => rfl)
 
 @[simp] theorem removeAwait_same (w : World) (p : Pid) (a : Await) : Same w (removeAwait w p a).1 :=
-  modProc_same _ _ _ (fun _ => rfl) (fun _ => rfl)
+  modProc_same _ _ _ (fun _ => rfl) (fun _ => rfl) (fun _ => rfl)
 
 @[simp] theorem removeAwaitKind_same (w : World) (p : Pid) (k : Await → Bool) : Same w (removeAwaitKind w p k).1 :=
-  modProc_same _ _ _ (fun _ => rfl) (fun _ => rfl)
+  modProc_same _ _ _ (fun _ => rfl) (fun _ => rfl) (fun _ => rfl)
 
 @[simp] theorem timerAdd_same (w : World) (p : Pid) (d sig : Int) : Same w (timerAdd w p d sig).1 :=
   Same.trans (sched_same _ _ _ _ _ _) (addAwait_same _ _ _)
@@ -252,27 +261,30 @@ theorem timeOk_cancel {q : EvQ} (hq : TimeOk q) (h : Nat) : TimeOk (cancel q h).
 @[simp] theorem timersClear_same (w : World) (p : Pid) : Same w (timersClear w p) := by
   unfold timersClear
   dsimp only
-  refine Same.trans (modProc_same w p _ ?_ ?_) (foldl_same _ (fun w h => evCancel_same w h) _ _)
+  refine Same.trans (modProc_same w p _ ?_ ?_ ?_) (foldl_same _ (fun w h => evCancel_same w h) _ _)
+  · intro _; rfl
   · intro _; rfl
   · intro _; rfl
 
 @[simp] theorem cancelAwaiteds_same (w : World) (p : Pid) : Same w (cancelAwaiteds w p) := by
   unfold cancelAwaiteds
   dsimp only
-  refine Same.trans (modProc_same w p _ ?_ ?_) (Same.trans (foldl_same _ ?_ _ _) (cancelAllFor_same _ _))
+  refine Same.trans (modProc_same w p _ ?_ ?_ ?_) (Same.trans (foldl_same _ ?_ _ _) (cancelAllFor_same _ _))
+  · intro _; rfl
   · intro _; rfl
   · intro _; rfl
   intro w a
   cases a with
   | time h => exact evCancel_same _ _
   | guard g => exact guardWithdraw_same _ _ _
-  | proc q => exact modProc_same _ _ _ (fun _ => rfl) (fun _ => rfl)
-  | event h => exact ⟨rfl, rfl, rfl, rfl, rfl, rfl, id, rfl, fun _ => rfl, fun _ => rfl⟩
+  | proc q => exact modProc_same _ _ _ (fun _ => rfl) (fun _ => rfl) (fun _ => rfl)
+  | event h => exact ⟨rfl, rfl, rfl, rfl, rfl, rfl, id, rfl, fun _ => rfl, fun _ => rfl, fun _ => rfl⟩
 
 @[simp] theorem wakeWaiters_same (w : World) (p : Pid) (sig : Int) : Same w (wakeWaiters w p sig) := by
   unfold wakeWaiters
   dsimp only
-  refine Same.trans (modProc_same w p _ ?_ ?_) (foldl_same _ (fun w q => sched_same w _ _ _ _ _) _ _)
+  refine Same.trans (modProc_same w p _ ?_ ?_ ?_) (foldl_same _ (fun w q => sched_same w _ _ _ _ _) _ _)
+  · intro _; rfl
   · intro _; rfl
   · intro _; rfl
 
@@ -281,7 +293,7 @@ theorem timeOk_cancel {q : EvQ} (hq : TimeOk q) (h : Nat) : TimeOk (cancel q h).
   split
   · exact fail_same _ _
   · split
-    · exact Same.trans (b := { w with guards := _ }) ⟨rfl, rfl, rfl, rfl, rfl, rfl, id, rfl, fun _ => rfl, fun _ => rfl⟩ (addAwait_same _ _ _)
+    · exact Same.trans (b := { w with guards := _ }) ⟨rfl, rfl, rfl, rfl, rfl, rfl, id, rfl, fun _ => rfl, fun _ => rfl, fun _ => rfl⟩ (addAwait_same _ _ _)
     · exact fail_same _ _
 
 @[simp] theorem guardWaitLeave_same (w : World) (g : Nat) (p : Pid) (sig : Int) : Same w (guardWaitLeave w g p sig) := by
@@ -296,8 +308,8 @@ theorem timeOk_cancel {q : EvQ} (hq : TimeOk q) (h : Nat) : TimeOk (cancel q h).
 @[simp] theorem setVar_same (w : World) (p : Pid) (v h : Nat) : Same w (setVar w p v h) := by
   unfold setVar
   split
-  · exact ⟨rfl, rfl, rfl, rfl, rfl, rfl, id, rfl, fun _ => rfl, fun _ => rfl⟩
-  · exact modProc_same _ _ _ (fun _ => rfl) (fun _ => rfl)
+  · exact ⟨rfl, rfl, rfl, rfl, rfl, rfl, id, rfl, fun _ => rfl, fun _ => rfl, fun _ => rfl⟩
+  · exact modProc_same _ _ _ (fun _ => rfl) (fun _ => rfl) (fun _ => rfl)
 
 @[simp] theorem condSignal_same (w : World) (g : Nat) : Same w (condSignal w g).1 := by
   unfold condSignal
